@@ -765,6 +765,13 @@ func (engine *Engine) ServeHTTP(c context.Context, ctx *app.RequestContext) {
 	if engine.options.UseRawPath {
 		rPath = string(ctx.Request.URI().PathOriginal())
 		unescape = engine.options.UnescapePathValues
+		if rPath == "" {
+			// an absolute-form target without a path (http://host?x=1): its path is "/".
+			// (An origin-form target that begins with '?' or '#' has no such excuse.)
+			if t := ctx.Request.Header.RequestURI(); len(t) > 0 && t[0] != '?' && t[0] != '#' {
+				rPath = "/"
+			}
+		}
 	}
 
 	if engine.options.RemoveExtraSlash {
